@@ -102,26 +102,42 @@ def run(prog: Program, L: Ledger) -> None:
             var = gen.target.elts[0].id
             iv_keys = [f"{gen.target.elts[1].id}.interval", f"self.moves[{var}].interval"]
         bad = None
+        # other attributes of the stored entry that the filter consults are free: the predicate must
+        # equal `step % interval == 0` for every value they can take
+        free: dict[str, list] = {}
+        prefixes = [k.rsplit(".", 1)[0] for k in iv_keys]
+        for n in ast.walk(cond):
+            if isinstance(n, ast.Attribute) and norm(n.value) in prefixes and n.attr != "interval":
+                dom = {"probability": [0.0, 0.5, 1.0], "minimum_count": [0, 1, 2]}.get(n.attr)
+                if dom is None:
+                    raise AnalysisError(f"yield_moves due filter consults `{norm(n)}`, which has no modelled domain")
+                free[norm(n)] = dom
+        import itertools as _it
+
         try:
             for s in range(0, 25):
                 for i in range(1, 9):
-                    env = {"self.step_count": s}
-                    for k in iv_keys:
-                        env[k] = i
-                    try:
-                        got = bool(ev(cond, env))
-                    except Raises as r:
-                        got = f"raises {r.what}"
-                    if got != (s % i == 0):
-                        bad = (s, i, got)
+                    for combo in _it.product(*free.values()) if free else [()]:
+                        env = {"self.step_count": s}
+                        for k in iv_keys:
+                            env[k] = i
+                        env.update(dict(zip(free.keys(), combo)))
+                        try:
+                            got = bool(ev(cond, env))
+                        except Raises as r:
+                            got = f"raises {r.what}"
+                        if got != (s % i == 0):
+                            bad = (s, i, got, dict(zip(free.keys(), combo)))
+                            break
+                    if bad:
                         break
                 if bad:
                     break
         except PredUnsupported as exc:
             raise AnalysisError(f"yield_moves due filter: {exc}") from exc
         L.check(bad is None, "M2", "yield_moves:due-filter", f"{rel}:{dstmt.lineno}",
-                "due filter differs from `step % interval == 0`: " + (f"step={bad[0]}, interval={bad[1]} -> {bad[2]}" if bad else ""),
-                (f"a move with interval {bad[1]} at step {bad[0]}" if bad else ""), norm(cond))
+                "due filter differs from `step % interval == 0`: " + (f"step={bad[0]}, interval={bad[1]}{', ' + str(bad[3]) if bad[3] else ''} -> due={bad[2]}" if bad else ""),
+                (f"a move with interval {bad[1]}{' and ' + str(bad[3]) if bad[3] else ''} at step {bad[0]}: it is {'not ' if not bad[2] else ''}treated as due (forced minimum-count slots included)" if bad else ""), norm(cond))
         L.check(norm(dcomp.elt) == var, "M2", "yield_moves:due-elements", f"{rel}:{dstmt.lineno}", f"due list collects `{norm(dcomp.elt)}` instead of the move names", "", norm(dcomp.elt))
 
     # ------------------------------------------------------------ CFG (M1)
